@@ -587,6 +587,12 @@ class Exec:
             return Ref("builtin", name)
         if name == "ast":
             return Ref("module", "ast")
+        # a helper of the same module that carries no contract: executed inline (it is then
+        # verified as part of every caller)
+        if self.module_tree is not None and frm is None:
+            for s_ in self.module_tree.body:
+                if isinstance(s_, ast.FunctionDef) and s_.name == name:
+                    return Ref("inline", name, extra=s_)
         raise Unsupported(f"unresolved name {name!r} (from {frm})")
 
     def lift_const(self, c):
@@ -1034,6 +1040,8 @@ class Exec:
                 return h(self, args, kw, e, env)
             if f.kind == "func":
                 return self.apply_contract(f.name, None, args, kw, line)
+            if f.kind == "inline":
+                return self.inline_call(f.extra, None, args, kw, line)
             if f.kind == "spec":
                 return self.w.specs[f.name].apply(self, args)
             if f.kind == "exc":
@@ -1075,7 +1083,54 @@ class Exec:
         mkey = self.w.method_key(ckey, name)
         if mkey in self.w.contracts:
             return self.apply_contract(mkey, obj, args, kw, line)
+        # a method of the class that carries no contract: inline it
+        try:
+            from . import extract
+            cnode, _, _, _ = extract.find(ckey)
+            for s_ in cnode.body:
+                if isinstance(s_, ast.FunctionDef) and s_.name == name:
+                    return self.inline_call(s_, obj, args, kw, line)
+        except extract.ExtractError:
+            pass
         raise Unsupported(f"method {ckey}.{name} has no contract/model")
+
+    def inline_call(self, fnode, self_obj, args, kw, line):
+        depth = getattr(self, "_inline_depth", 0)
+        if depth > 3:
+            raise Unsupported(f"inlining depth exceeded at {fnode.name}")
+        params = [a.arg for a in fnode.args.args]
+        env = {}
+        if self_obj is not None:
+            env[params[0]] = self_obj
+            params = params[1:]
+        if len(args) > len(params) or fnode.args.vararg or fnode.args.kwarg:
+            raise Unsupported(f"inline call of {fnode.name}: argument shape")
+        for p, a in zip(params, args):
+            env[p] = a
+        for k, a in kw.items():
+            if k not in params:
+                raise Unsupported(f"inline call of {fnode.name}: unknown keyword {k}")
+            env[k] = a
+        nd = len(fnode.args.defaults)
+        allp = [a.arg for a in fnode.args.args]
+        for i, p in enumerate(allp):
+            if p in env:
+                continue
+            di = i - (len(allp) - nd)
+            if di < 0:
+                raise Unsupported(f"inline call of {fnode.name}: missing argument {p}")
+            env[p] = self.ev(fnode.args.defaults[di], {})
+        saved_fn = self.fn
+        self._inline_depth = depth + 1
+        self.fn = fnode
+        try:
+            self.run_block(fnode.body, env)
+            return Z(self.P.PNone)
+        except ReturnSig as r:
+            return r.value
+        finally:
+            self.fn = saved_fn
+            self._inline_depth = depth
 
     def apply_contract(self, key, self_obj, args, kw, line):
         from .contracts import apply_contract
